@@ -9,6 +9,7 @@
 import Fx.Index
 import Fx.Lemmas.Generic
 import Fx.Lemmas.PegTerm
+import Fx.Lemmas.PegFuel
 namespace Fx.C14
 open Fx
 
@@ -135,5 +136,13 @@ theorem C14_front_end_terminates (txt : List Char) :
     ∃ F, ∀ f, F ≤ f → ∃ r, Peg.evalRule Grammar.xdr f false "item" ⟨0, txt⟩ = r ∧ r ≠ .outOfFuel := by
   obtain ⟨F, hF⟩ := C14_parser_terminates txt.length
   exact ⟨F, fun f hf => ⟨_, rfl, hF txt (Nat.le_refl _) f hf⟩⟩
+
+/-- the parse is a function of the text: there is one answer — accept with one token tree, or reject — and every sufficient
+    budget returns it (termination + budget irrelevance) -/
+theorem C14_parse_is_a_function (txt : List Char) :
+    ∃ (r : Peg.PR) (F : Nat), r ≠ .outOfFuel ∧ ∀ f, F ≤ f → Peg.evalRule Grammar.xdr f false "item" ⟨0, txt⟩ = r := by
+  obtain ⟨F, hF⟩ := C14_parser_terminates txt.length
+  have h0 := hF txt (Nat.le_refl _) F (Nat.le_refl _)
+  exact ⟨_, F, h0, fun f hf => Peg.evalRule_fuel_mono Grammar.xdr false "item" ⟨0, txt⟩ F f hf h0⟩
 
 end Fx.C14
